@@ -188,7 +188,10 @@ def sweep(ck, rng, n, stats, directed=False):
         for _ in range(5):
             q = gen_query(rng, m, pas)
             if directed:
-                q["dims"] = [d for d in q["dims"] if "created" not in d] + [f"{m['name']}.created__{g}" for g in rng.sample(S.GRANS, rng.choice([1, 2, 2, 3]))]
+                q["dims"] = [d for d in q["dims"] if "created" not in d] + [f"{m['name']}.created__{g}" for g in rng.sample(S.GRANS, rng.choice([1, 1, 1, 2, 2, 3]))]
+                if rng.random() < 0.25 and any(p["granularity"] == "week" for p in pas):
+                    # the matcher is shown only the LAST granularity: a coarse one first, the rollup's own last
+                    q["dims"] = [d for d in q["dims"] if "created" not in d] + [f"{m['name']}.created__{rng.choice(['month', 'quarter', 'year'])}", f"{m['name']}.created__week"]
                 q["filters"], q["order_by"], q["limit"], q["offset"] = [f for f in q["filters"] if "created" not in canon(f)], [], None, None
             r1 = S.run_real(m, table, q, use_preaggregations=True, layer=layer); r1.pop("layer")
             r0 = S.run_real(m, table, q, use_preaggregations=False, layer=layer); r0.pop("layer")
@@ -295,7 +298,7 @@ def run(ck: Check):
         ck.obligation("translator Gen/Compat.lean (36 entries of _is_granularity_compatible)", True, "regenerated")
     except Exception as e:  # fail closed
         ck.obligation("translator Gen/Compat.lean", False, f"untranslatable: {e!r}")
-    ck.prove("SideVerif.Properties.C08", ["SideVerif.Proofs.Reagg", "SideVerif.Proofs.RoutedGlue"])
+    ck.prove("SideVerif.Properties.C08", ["SideVerif.Proofs.Reagg", "SideVerif.Proofs.RoutedGlue", "SideVerif.Proofs.EvalCongr"])
     stats = Counter()
     thorough = ck.tier == "thorough"
     disagree = sweep(ck, ck.rng, 400 if thorough else 60, stats)
